@@ -4,7 +4,7 @@
     interleaving of attribute changes, events, subscribe/priming steps, report
     steps, purges, removals, expiry sweeps, persisting and restarts. *)
 From RsM Require Import Lib.MachInt Model.Subs Model.SubsSpec
-  Proofs.SubsFacts Proofs.SubsInv Proofs.SubsTiming Proofs.SubsTheorems.
+  Proofs.SubsFacts Proofs.SubsInv Proofs.SubsTiming Proofs.SubsTheorems Proofs.SubsSlot.
 Open Scope N_scope.
 
 (** No lost change: for every subscription kept in the table and every
@@ -62,8 +62,8 @@ Print Assumptions C13_undelivered_event_is_reportable.
     invariant is false, the subscription is neither reportable nor would its
     report carry the attribute. *)
 Theorem C13_unfixed_purge_refuted :
-  exists ops, inv_b (run_gen false init ops) = false /\ inv_b (run init ops) = true /\
-    let st := run_gen false init ops in
+  exists ops, inv_b (run_gen false true init ops) = false /\ inv_b (run init ops) = true /\
+    let st := run_gen false true init ops in
     existsb (fun s => stale (log st) (s_del s) f7_path && negb (unprimed s) &&
                       negb (is_reportable s 20000 (tab st) (evn st)) &&
                       negb (contains_since (tab st) f7_path (s_seen s))) (subs st) = true.
@@ -123,6 +123,36 @@ Theorem C13_expiry : forall ops now s,
   In s (subs (fst (step (run init ops) (OWake now)))) -> expiry_ok s now = true.
 Proof. exact expiry. Qed.
 Print Assumptions C13_expiry.
+
+(** The in-flight slot belongs to the report context (repaired [report_complete]).  A subscribe
+    request whose priming completed and was acknowledged is in the table afterwards, whatever
+    report is in flight and whether or not that report has been cancelled; the slot is untouched. *)
+Theorem C13_established_is_kept : forall ops sid x,
+  let st := run init ops in
+  find_ctx sid (ctxs st) = Some x -> x_prim x = true ->
+  let st' := fst (step st (OCtxEnd sid EOk)) in
+  (exists s, In s (subs st') /\ s_id s = sid) /\
+  reporting st' = reporting st /\ cancelled st' = cancelled st.
+Proof. exact established_is_kept. Qed.
+Print Assumptions C13_established_is_kept.
+
+(** A report that [remove] cancelled while in flight (new subscribe request of the same peer, removed
+    fabric, expiry) is dropped when it completes, whatever its outcome: its id is nowhere afterwards. *)
+Theorem C13_cancelled_report_is_dropped : forall ops r res,
+  let st := run init ops in
+  reporting st = Some r -> cancelled st = true ->
+  let st' := fst (step st (OCtxEnd (s_id r) res)) in
+  subs st' = subs st /\ reporting st' = None /\ cancelled st' = false /\ ~ In (s_id r) (all_ids st').
+Proof. exact cancelled_report_is_dropped. Qed.
+Print Assumptions C13_cancelled_report_is_dropped.
+
+(** Before that repair ([report_complete] let any context clear the slot and take the cancellation):
+    on the eight-operation witness (corpus c5) the removed subscription 1 stays and the new,
+    acknowledged subscription 2 is gone; after the repair it is the other way round. *)
+Theorem C13_slot_before_fix :
+  ids_in_table (run_gen true false init slot_witness) = [1] /\ ids_in_table (run init slot_witness) = [2].
+Proof. exact (conj slot_before_fix slot_after_fix). Qed.
+Print Assumptions C13_slot_before_fix.
 
 (** * Non-vacuity *)
 
